@@ -5,6 +5,7 @@ package main
 import (
 	"fmt"
 	"go/token"
+	"os"
 	"strings"
 
 	"golang.org/x/tools/go/ssa"
@@ -41,7 +42,8 @@ func runC08(c *Ctx) {
 type dispatchInfo struct {
 	Fn      *ssa.Function
 	Lookup  *ssa.Lookup
-	Key     ssa.Value
+	Key     ssa.Value // the lookup key as a value of Fn
+	KeyExpr ssa.Value // the index expression of the lookup (in the function holding it)
 	Call    *ssa.Call
 	OkValue ssa.Value
 }
@@ -57,7 +59,7 @@ func (p *Program) dispatchers() []*dispatchInfo {
 			if owner, f, _, ok := fieldOf(lk.X); !ok || owner != "redis.Server" || f != "commandExecutors" {
 				return
 			}
-			di := &dispatchInfo{Fn: fn, Lookup: lk, Key: strip(lk.Index)}
+			di := &dispatchInfo{Fn: fn, Lookup: lk, Key: strip(lk.Index), KeyExpr: strip(lk.Index)}
 			// the call through the looked-up value
 			allInstrs(fn, func(i2 ssa.Instruction) {
 				call, ok := i2.(*ssa.Call)
@@ -79,8 +81,71 @@ func (p *Program) dispatchers() []*dispatchInfo {
 					}
 				}
 			}
+			if di.Call == nil {
+				// a lookup helper returning (executor, found[, key]): the dispatcher is each
+				// function that calls the helper and then the executor it returned
+				if via := p.dispatchersVia(fn, di); len(via) > 0 {
+					out = append(out, via...)
+					return
+				}
+			}
 			out = append(out, di)
 		})
+	}
+	return out
+}
+
+func (p *Program) dispatchersVia(helper *ssa.Function, di *dispatchInfo) []*dispatchInfo {
+	rets := returnsOf(helper)
+	if len(rets) != 1 {
+		return nil
+	}
+	iExec, iOk, iKey := -1, -1, -1
+	for i := range rets[0].Results {
+		v := strip(retOperand(rets[0], i))
+		if ex, ok := v.(*ssa.Extract); ok && ex.Tuple == ssa.Value(di.Lookup) {
+			if ex.Index == 0 {
+				iExec = i
+			} else {
+				iOk = i
+			}
+		}
+		if v == di.Key {
+			iKey = i
+		}
+	}
+	sites, only := p.onlyStaticallyCalled(helper)
+	if os.Getenv("DBGDISP") != "" {
+		fmt.Fprintln(os.Stderr, "dispatchersVia", fnName(helper), len(rets), iExec, iOk, iKey, len(sites), only)
+	}
+	if iExec < 0 || iOk < 0 || !only {
+		return nil
+	}
+	var out []*dispatchInfo
+	for _, site := range sites {
+		g := site.Parent()
+		nd := &dispatchInfo{Fn: g, Lookup: di.Lookup, KeyExpr: di.KeyExpr}
+		if site.Referrers() != nil {
+			for _, r := range *site.Referrers() {
+				ex, ok := r.(*ssa.Extract)
+				if !ok {
+					continue
+				}
+				switch ex.Index {
+				case iOk:
+					nd.OkValue = ex
+				case iKey:
+					nd.Key = ex
+				case iExec:
+					allInstrs(g, func(i2 ssa.Instruction) {
+						if call, ok := i2.(*ssa.Call); ok && !call.Common().IsInvoke() && strip(call.Common().Value) == ssa.Value(ex) {
+							nd.Call = call
+						}
+					})
+				}
+			}
+		}
+		out = append(out, nd)
 	}
 	return out
 }
@@ -865,6 +930,16 @@ func ruleTLSConfig(c *Ctx, rid string) {
 	}
 	pool := strip(fields["ClientCAs"])
 	pc, isCall := pool.(*ssa.Call)
+	if isCall && calleeName(pc.Common()) != "crypto/x509.NewCertPool" {
+		// a helper of the repository that creates the pool and returns it
+		if h := staticCallee(pc.Common()); h != nil && inRepo(h) && h.Blocks != nil {
+			if rets := returnsOf(h); len(rets) == 1 && len(rets[0].Results) >= 1 {
+				if inner, ok := strip(retOperand(rets[0], 0)).(*ssa.Call); ok {
+					pc = inner
+				}
+			}
+		}
+	}
 	poolOK := isCall && calleeName(pc.Common()) == "crypto/x509.NewCertPool"
 	if !poolOK {
 		c.bad(rid, "tls.Config/ClientCAs", pos, "ClientCAs is not a pool freshly created with x509.NewCertPool(): CAs other than the configured one (e.g. the system roots) are trusted for client certificates")
